@@ -493,6 +493,21 @@ def oracle_precedence(cfg):
             fails.append('record options has key %r: %r, some layer has it: %r' % (k, k in rec['options'], present))
         elif present and not py_same(rec['options'][k], want):
             fails.append('record options[%r] = %r, expected %r' % (k, rec['options'][k], want))
+    # the arithmetic the election runs on is the one the effective options name: class, precision, guard
+    V = getattr(E, 'V', None)
+    if ex is None and V is not None:
+        eff_arith = o.getopt('arithmetic')
+        if isinstance(eff_arith, str) and getattr(V, 'name', None) not in (None, eff_arith) and not (eff_arith == 'fixed' and V.name == 'integer' and str(o.getopt('precision')) == '0'):
+            fails.append('effective arithmetic %r but the class in use is %r' % (eff_arith, V.name))
+        for key in ('precision', 'guard'):
+            eff = o.getopt(key)
+            have = getattr(V, key, None)
+            if have is not None and eff is not None and V.name in ('fixed', 'integer', 'guarded'):
+                try:
+                    if int(eff) != int(have):
+                        fails.append('effective %s=%r but the arithmetic class runs with %s=%r' % (key, eff, key, have))
+                except (TypeError, ValueError):
+                    pass
     supplied = dict(rec['file_options']); supplied.update(rec['cmd'])
     want_unused = sorted(k for k in supplied if k not in ('rule', 'path') and k not in rec['default'])
     if o.unused() != want_unused:
